@@ -15,10 +15,13 @@
 (*          SaveState, RestoreState, ForkSign interleaved with sign calls) *)
 (*          with the arguments of every sign call                          *)
 (*  envtrace (V) the r, s recorded while replaying one such behaviour      *)
+(*  objgen  (G) the call sequences on one Signature object (EcdsaObj)      *)
+(*  objtrace (V) the verdicts and reported key / digest recorded while     *)
+(*          replaying one such sequence on a real object                   *)
 (* Oracle facts (fields valid, oncurve, eq) come from the reference        *)
 (* secp256k1 implementation; everything else is decided here.              *)
 (***************************************************************************)
-EXTENDS EcdsaEnv, Json, IOUtils
+EXTENDS EcdsaEnv, EcdsaObj, Json, IOUtils
 
 ASSUME Half256 = HalfByDivision(Order256)
 
@@ -112,8 +115,14 @@ EnvTable(plans, maxLen) ==
     SX!SetToSeq({ [plan |-> plans[j], steps |-> Filled(b, plans[j])] :
                   j \in 1..Len(plans), b \in UNION {Behaviours(l) : l \in 2..maxLen} })
 
+ObjTable(maxLen) == SX!SetToSeq({ [c |-> c, calls |-> q] : c \in Constructions, q \in ObjSeqs(maxLen) })
+
 Judge(rec) ==
-  CASE rec.k = "envgen" -> [v |-> "ok", dev |-> "", exp |-> <<>>, behs |-> EnvTable(rec.plans, rec.maxlen)]
+  CASE rec.k = "objgen" -> [v |-> "ok", dev |-> "", exp |-> <<>>, seqs |-> ObjTable(rec.maxlen)]
+    [] rec.k = "objtrace" ->
+         LET fs == ObjJudge(rec.c, rec.events, rec.fact) IN
+         [v |-> IF ObjBlamed(fs) THEN "events" ELSE "ok", dev |-> "", exp |-> <<>>, evs |-> fs]
+    [] rec.k = "envgen" -> [v |-> "ok", dev |-> "", exp |-> <<>>, behs |-> EnvTable(rec.plans, rec.maxlen)]
     [] rec.k = "envtrace" ->
          LET fs == EnvJudge(rec.events, N) IN
          [v |-> IF Blamed(fs) THEN "events" ELSE "ok", dev |-> "", exp |-> <<>>, evs |-> fs]
